@@ -520,7 +520,8 @@ func TestVerif_C11(t *testing.T) {
 	res := newVerifResult("prefix lengths 0..32 x 3 base addresses x 13 peers (network, broadcast, one below/above, first host, random inside, random, IPv4-mapped inside/outside, IPv6, garbage) minted through POST /v1/getRoleRequestingCert (for four automation identities, two differing only in case) and checked with VerifyIPRestrictedX509CertIP, ExtractIPNets and POST /v1/refreshRoleRequestingCert; multi-block lists; ~70 structurally corrupted extensions in certificates signed by the role CA; non-trivial = peer inside a block or corrupted extension; distinct by (blocks, peer, verdict)")
 	env := verifSetup(t, func(c *AppConfigFile, dir string) {
 		c.Base.AllowedAuthBackendsForWebUI = []string{"password"}
-		c.Base.AllowedAuthBackendsForCerts = []string{"U2F"}
+		// IPCertificate: /certgen/<automation user> is reachable with an IP-restricted certificate (sequence stage)
+		c.Base.AllowedAuthBackendsForCerts = []string{"U2F", "IPCertificate"}
 		// identities differing only in case (and one that no normalisation maps onto another
 		// configured name): a refresh must hand back exactly the identity it was given
 		c.Base.AutomationUsers = c11Identities
@@ -745,11 +746,15 @@ func TestVerif_C11(t *testing.T) {
 		}
 	}
 	refreshCases, refreshIdx := c11RefreshFormStage(env, res, keys, roleCA, mint)
+	if verifThorough() {
+		c11RealTLSResume(env, res, keys, mint) // first: its few hits must not fall under the cap on recorded hits
+	}
+	seqCases, seqIdx := c11ResumeStage(env, res, keys, roleCA, mint)
 	malformedCases = verifCorruptExtensionProbe(env, res, keys, "C11")
 	// Coq
 	var sb strings.Builder
 	sb.WriteString(coqCaseHeader)
-	sb.WriteString("From KM Require Import Base.Cases Model.IPExt.\nOpen Scope N_scope.\n")
+	sb.WriteString("From KM Require Import Base.Cases Model.IPExt Model.IPExtConn.\nOpen Scope N_scope.\n")
 	sb.WriteString("Definition verify_cases : list (list netblock * peer * bool) := [\n " + strings.Join(verifyCases, ";\n ") + "].\n")
 	sb.WriteString("Definition c11_verify_mismatches := Eval vm_compute in mismatches (fun c : list netblock * peer * bool => let '(bl, p, o) := c in negb (Bool.eqb (verify_ip (rc_ext (mint_request [] bl)) p) o)) verify_cases.\nPrint c11_verify_mismatches.\n")
 	sb.WriteString("Definition c11_wf_mismatches := Eval vm_compute in mismatches (fun c : list netblock * peer * bool => let '(bl, p, o) := c in negb (forallb cidr_ok bl && forallb wf_block (map canon bl))) verify_cases.\nPrint c11_wf_mismatches.\n")
@@ -760,12 +765,20 @@ func TestVerif_C11(t *testing.T) {
 	sb.WriteString("(* refresh with a form: (identity, blocks, peer, form without the key, answered 200, identity and blocks of the returned certificate) *)\n")
 	sb.WriteString("Definition refresh_cases : list (bs * list netblock * peer * form * bool * bs * list netblock) := [\n " + strings.Join(refreshCases, ";\n ") + "].\n")
 	sb.WriteString("Definition c11_refresh_mismatches := Eval vm_compute in mismatches (fun c : bs * list netblock * peer * form * bool * bs * list netblock => let '(cn, bl, p, f, ok, ncn, nbl) := c in match refresh (minted cn bl) p f true with Some (id, m) => negb (ok && bs_eqb id ncn && blocks_eqb m nbl) | None => ok end) refresh_cases.\nPrint c11_refresh_mismatches.\n")
-	sb.WriteString("Definition c11_ncases := Eval vm_compute in (length verify_cases + length extract_cases + length malformed_cases + length refresh_cases)%nat.\nPrint c11_ncases.\n")
+	sb.WriteString("(* sequences of requests on one server: per step (blocks as requested, verified chain, DidResume, peer, let in) *)\n")
+	sb.WriteString("Definition seq_cases : list (list obs_step) := [\n " + strings.Join(seqCases, ";\n ") + "].\n")
+	sb.WriteString("Definition c11_resume_mismatches := Eval vm_compute in mismatches seq_bad seq_cases.\nPrint c11_resume_mismatches.\n")
+	sb.WriteString("Definition c11_resume_violating := Eval vm_compute in mismatches (fun s => seq_bad s && seq_violates s) seq_cases.\nPrint c11_resume_violating.\n")
+	sb.WriteString("Definition c11_ncases := Eval vm_compute in (length verify_cases + length extract_cases + length malformed_cases + length refresh_cases + length seq_cases)%nat.\nPrint c11_ncases.\n")
 	if err := ioutil.WriteFile(filepath.Join(verifOut(), "CasesC11.v"), []byte(sb.String()), 0644); err != nil {
 		t.Fatal(err)
 	}
 	ioutil.WriteFile(filepath.Join(verifOut(), "CasesC11.idx"), []byte(strings.Join(vidx, "\n")), 0644)
 	ioutil.WriteFile(filepath.Join(verifOut(), "CasesC11R.idx"), []byte(strings.Join(refreshIdx, "\n")), 0644)
+	ioutil.WriteFile(filepath.Join(verifOut(), "CasesC11S.idx"), []byte(strings.Join(seqIdx, "\n")), 0644)
+	if len(seqIdx) > 1 {
+		res.sample(seqIdx[1])
+	}
 	res.sample(map[string]interface{}{"blocks": "10.1.4.0/22", "peer": "10.1.7.255:4711", "expected": true})
 	res.sample(map[string]interface{}{"corrupted_extension": "ipv4 family, bit string of 40 bits", "peer": "10.0.0.1:4711"})
 	if len(vidx) > 3 {
